@@ -125,7 +125,15 @@ func H_C07_quiet() {
 		}
 	}
 	kind, dmg := zz.Param(1), zz.Param(2)
-	zz.Class("kind=" + strconv.Itoa(kind) + "/dmg=" + strconv.Itoa(dmg) + "/role=" + strconv.Itoa(role))
+	zz.Class("kind=" + strconv.Itoa(kind) + "/dmg=" + strconv.Itoa(dmg) + "/role=" + strconv.Itoa(role) + "/pre=" + strconv.Itoa(zz.Param(6)))
+	localLogout := zz.Param(6) == 1
+	if localLogout {
+		// the application may call Logout()/Stop() at any time, also on a session nobody logged on to
+		_ = f.s.Logout()
+		for _, o := range f.h.VerifOut() {
+			zz.Assert(isType(o, "5"), "C07: Logout() transmits something other than a Logout")
+		}
+	}
 	b, numTag := mkInbound(kind, peer, me, seqOfClass(zz.Param(4)))
 	if kind == mLogon {
 		if role == 1 && dmg == dmgNone {
@@ -135,7 +143,7 @@ func H_C07_quiet() {
 			b = f.refuseVariant(zz.Param(5), b)
 		}
 	}
-	if dmg == dmgNumField && numTag == "" {
+	if (dmg == dmgNumField || dmg == dmgNumEmpty) && numTag == "" {
 		zz.Assume(false)
 	}
 	d := applyDamage(b, dmg, numTag)
@@ -149,6 +157,9 @@ func H_C07_quiet() {
 	}
 	zz.Assert(!f.s.IsLogged(), "C07: session is logged on without an acceptable Logon")
 	zz.Assert(zz.Spawned() == spawned, "C07: timers started without a successful logon")
+	if localLogout {
+		return
+	}
 	if role == 0 {
 		zz.Assert(f.s.state == WaitingLogon, "C07: accepting session left the waiting-for-logon state")
 	} else {
@@ -190,7 +201,7 @@ func H_C16_reject() {
 	wasLogged := f.s.IsLogged()
 	seq := seqOfClass(zz.Param(4))
 	b, numTag := mkInbound(kind, peer, me, seq)
-	if dmg == dmgNumField && numTag == "" {
+	if (dmg == dmgNumField || dmg == dmgNumEmpty) && numTag == "" {
 		zz.Assume(false)
 	}
 	if dmg == dmgNone {
@@ -209,7 +220,7 @@ func H_C16_reject() {
 		}
 	}
 	d := applyDamage(b, dmg, numTag)
-	seqUsable := dmg != dmgSeqAlpha && dmg != dmgSeqMissing
+	seqUsable := dmg != dmgSeqAlpha && dmg != dmgSeqMissing && dmg != dmgSeqEmpty
 	if zz.Param(5) == 1 && seqUsable {
 		// additionally remove MsgSeqNum (only meaningful together with another defect)
 		if dmg != dmgNone {
